@@ -305,4 +305,50 @@ def stepEv (s : St) : Ev → St
 
 def runEv (evs : List Ev) : St := evs.foldl stepEv init
 
+/-! ### Production wiring (`internal/cmd`): the context of a refresh, the start of the process -/
+
+/-- `ctxWithOptionalTimeout` (used by `initProfDB` and by the context constructor of the refresh
+worker): the deadline of a context created at `now` for the configured `backend.timeout`; `none`
+is a context without a deadline — what the configuration documents for `timeout: 0s`. -/
+def ctxDeadline (timeout now : Nat) : Option Nat :=
+  if timeout = 0 then none else some (now + timeout)
+
+/-- The builder before the repair: `context.WithTimeout(parent, timeout)` for every value. -/
+def ctxDeadlineOld (timeout now : Nat) : Option Nat := some (now + timeout)
+
+/-- A request issued at `now` whose answer takes `latency` is answered iff it is complete before
+the deadline of its context. -/
+def answered (deadline : Option Nat) (now latency : Nat) : Bool :=
+  match deadline with
+  | none => true
+  | some d => decide (now + latency < d)
+
+/-- `needsFullSync` with the clock readings as inputs: `sinceFull = time.Since(lastFullSync)`,
+`sinceErr = some (time.Since(lastFullSyncError))` iff the last attempt at a full synchronisation
+failed. -/
+def needsFullSync (fullIvl retryIvl sinceFull : Int) (sinceErr : Option Int) : Bool :=
+  match sinceErr with
+  | none => decide (sinceFull ≥ fullIvl)
+  | some e => decide (e ≥ retryIvl)
+
+/-- How the initial refresh of a start ends. -/
+inductive InitialRefresh
+  | ok | deadlineExceeded | otherError
+deriving DecidableEq, Repr
+
+/-- `initProfDB`: the process goes on after a successful initial refresh and after one that ran
+into the deadline (it serves what the cache file held); any other error aborts the start. -/
+def startGoesOn : InitialRefresh → Bool
+  | .ok => true
+  | .deadlineExceeded => true
+  | .otherError => false
+
+/-- One start of the process as `builder.initProfileDB` runs it against a backend that answers
+after `latency`: `profiledb.New` (the cache file read as version `v`), then the initial refresh
+under a context made for `backend.timeout` by `mk`. -/
+def startEvs (mk : Nat → Nat → Option Nat) (v timeout latency : Nat) (full : Bool) (t : Nat)
+    (ps : List Profile) (ds : List Device) : List Ev :=
+  [.op (.restart v),
+   if answered (mk timeout 0) 0 latency then .op (.sync full t ps ds) else .failed full]
+
 end Agd.ProfileDB
